@@ -1598,6 +1598,14 @@ func toStatementApi(s *oc.Statement) *api.Statement {
 	if s.Conditions.BgpConditions.LocalPrefEq != 0 {
 		cs.LocalPrefEq = &api.LocalPrefEq{Value: s.Conditions.BgpConditions.LocalPrefEq}
 	}
+	switch s.Conditions.BgpConditions.OriginEq {
+	case oc.BGP_ORIGIN_ATTR_TYPE_IGP:
+		cs.Origin = api.OriginType_ORIGIN_TYPE_IGP
+	case oc.BGP_ORIGIN_ATTR_TYPE_EGP:
+		cs.Origin = api.OriginType_ORIGIN_TYPE_EGP
+	case oc.BGP_ORIGIN_ATTR_TYPE_INCOMPLETE:
+		cs.Origin = api.OriginType_ORIGIN_TYPE_INCOMPLETE
+	}
 	if s.Conditions.BgpConditions.MedEq != 0 {
 		cs.MedEq = &api.MedEq{Value: s.Conditions.BgpConditions.MedEq}
 	}
@@ -1672,7 +1680,9 @@ func toStatementApi(s *oc.Statement) *api.Statement {
 			return api.RouteAction_ROUTE_ACTION_UNSPECIFIED
 		}(),
 		Community: func() *api.CommunityAction {
-			if len(s.Actions.BgpActions.SetCommunity.SetCommunityMethod.CommunitiesList) == 0 {
+			// keyed on the option, not on the list: "replace" with an empty
+			// list (clear all communities) is a valid action
+			if s.Actions.BgpActions.SetCommunity.Options == "" {
 				return nil
 			}
 			action := toCommunityActionType(oc.BgpSetCommunityOptionType(s.Actions.BgpActions.SetCommunity.Options))
